@@ -7,6 +7,7 @@
      EnumsGenerator._filter_class_defs               (filter_defs on the enum class list)
      PackageGenerator.add_operation / generate       (used_enums accumulation: results (add_operation runs
                                                       before generate) -> retained inputs -> fragments module
+                                                      -> builder argument enums (custom operations only)
                                                       -> client arguments; then _generate_enums)
    A class definition is an abstract payload A (its source text in the tie). *)
 From Coq Require Import List String Bool Arith.
@@ -72,9 +73,20 @@ Record pkg (A : Type) := {
   p_arg_enums : list string;              (* ArgumentsGenerator._used_enums *)
   p_res_enums : list string;              (* ResultTypesGenerator.get_used_enums, operations in order *)
   p_frag_enums : list string;             (* FragmentsGenerator.get_used_enums *)
+  p_custom : bool;                        (* enable_custom_operations *)
+  p_builder_inputs : list string;         (* _get_custom_operations_arguments_types()[0] (fix c0f9ed8) *)
+  p_builder_enums : list string;          (* _get_custom_operations_arguments_types()[1] *)
 }.
 Arguments p_inputs {A}. Arguments p_enums {A}. Arguments p_arg_inputs {A}. Arguments p_arg_enums {A}.
-Arguments p_res_enums {A}. Arguments p_frag_enums {A}.
+Arguments p_res_enums {A}. Arguments p_frag_enums {A}. Arguments p_custom {A}.
+Arguments p_builder_inputs {A}. Arguments p_builder_enums {A}.
+
+(* types_to_include of _generate_input_types: the variables' input types, plus the argument input types
+   of every field the operation-builder modules expose when custom operations are enabled *)
+Definition roots {A} (p : pkg A) : list string :=
+  (p_arg_inputs p ++ (if p_custom p then p_builder_inputs p else []))%list.
+Definition builder_enums {A} (p : pkg A) : list string :=
+  if p_custom p then p_builder_enums p else [].
 
 Definition dep_graph {A} (p : pkg A) : graph := map (fun d => (i_name d, i_deps d)) (p_inputs p).
 Definition input_defs {A} (p : pkg A) : list (string * A) := map (fun d => (i_name d, i_body d)) (p_inputs p).
@@ -82,7 +94,7 @@ Definition input_defs {A} (p : pkg A) : list (string * A) := map (fun d => (i_na
 (* InputTypesGenerator.generate(types_to_include) -> retained class defs *)
 Definition gen_inputs {A} (p : pkg A) (all_inputs : bool) : option (list (string * A)) :=
   if all_inputs then Some (input_defs p)
-  else match closure_opt (dep_graph p) (p_arg_inputs p) with
+  else match closure_opt (dep_graph p) (roots p) with
        | Some names => Some (filter_defs (input_defs p) names)
        | None => None
        end.
@@ -99,7 +111,7 @@ Definition input_used_enums {A} (p : pkg A) (retained : list (string * A)) : lis
 
 (* PackageGenerator._used_enums just before _generate_enums *)
 Definition used_enums {A} (p : pkg A) (retained : list (string * A)) : list string :=
-  (p_res_enums p ++ input_used_enums p retained ++ p_frag_enums p ++ p_arg_enums p)%list.
+  (p_res_enums p ++ input_used_enums p retained ++ p_frag_enums p ++ builder_enums p ++ p_arg_enums p)%list.
 
 Definition gen_enums {A} (p : pkg A) (all_enums : bool) (retained : list (string * A)) : list (string * A) :=
   if all_enums then p_enums p else filter_defs (p_enums p) (used_enums p retained).
@@ -117,7 +129,8 @@ Local Open Scope string_scope.
    (deps ((k (v ...)) ...) t)                         -> (some (n ...)) | none
    (closure graph (root ...))                         -> (some (n ...)) | none
    (generate ((name (dep ...) (enum ...) body) ...) ((ename body) ...)
-             (arg_inputs ...) (arg_enums ...) (res_enums ...) (frag_enums ...) all_inputs all_enums)
+             (arg_inputs ...) (arg_enums ...) (res_enums ...) (frag_enums ...) all_inputs all_enums
+             custom (builder_inputs ...) (builder_enums ...))
         -> (some (((name body) ...) ((ename body) ...) (used enum list)))  | none *)
 Definition dStrs (e : sexp) : option (list string) := dList dStr e.
 
@@ -151,15 +164,17 @@ Definition run_prune (e : sexp) : sexp :=
       match dGraph g, dStrs rs with
       | Some gr, Some r => sOpt sStrs (closure_opt gr r)
       | _, _ => sErr "closure args" end
-  | L [A "generate"; ins; ens; ai; ae; re; fe; fi; fen] =>
-      match dList dInput ins, dList dEnumDef ens, dStrs ai, dStrs ae, dStrs re, dStrs fe, dB fi, dB fen with
-      | Some i, Some en, Some a1, Some a2, Some r, Some f, Some b1, Some b2 =>
+  | L [A "generate"; ins; ens; ai; ae; re; fe; fi; fen; cu; bi; be] =>
+      match dList dInput ins, dList dEnumDef ens, dStrs ai, dStrs ae, dStrs re, dStrs fe, dB fi, dB fen,
+            dB cu, dStrs bi, dStrs be with
+      | Some i, Some en, Some a1, Some a2, Some r, Some f, Some b1, Some b2, Some c, Some x1, Some x2 =>
           let p := {| p_inputs := i; p_enums := en; p_arg_inputs := a1; p_arg_enums := a2;
-                      p_res_enums := r; p_frag_enums := f |} in
+                      p_res_enums := r; p_frag_enums := f; p_custom := c;
+                      p_builder_inputs := x1; p_builder_enums := x2 |} in
           match generate p b1 b2 with
           | Some (ri, rn) => L [A "some"; L [sDefs ri; sDefs rn; sStrs (used_enums p ri)]]
           | None => A "none"
           end
-      | _, _, _, _, _, _, _, _ => sErr "generate args" end
+      | _, _, _, _, _, _, _, _, _, _, _ => sErr "generate args" end
   | _ => sErr "prune: bad command"
   end.
